@@ -2215,14 +2215,15 @@ theorem c07s_clear_on_bump {hash : Nat → Nat} {cur dur ca g : Nat} {fields : F
       rw [updatedValue_gen_eq] at hgen
       rcases hc with ⟨hc1, _, _⟩ | ⟨hc1, hid, _⟩
       · rw [hc1] at hgen; exact absurd rfl hgen
-      · refine ⟨by rw [updatedValue_memos_eq, hc1]; rfl, updateFields_fields _ _ _ _, by rw [hid],
+      · refine ⟨by rw [updatedValue_memos_eq, hc1]; rfl, updateFields_fields _ _ _ _,
+          by rw [hid]; exact hki.symm,
           by rw [updatedValue_gen_eq, hc1, hid]; rfl, rfl, ?_⟩
         intro hI
         obtain ⟨e, he, _, heid⟩ := find_some_mem hfind
         obtain ⟨ve, hve, _, hge⟩ := hI.owns e he
         rw [heid, hv0] at hve
         cases hve
-        rw [updatedValue_gen_eq, hc1, ← hge]; rfl
+        rw [updatedValue_gen_eq, hc1, hge, heid]; rfl
     · rw [List.getElem?_set_ne hki, hv] at hv'
       cases hv'; exact absurd rfl hgen
   · exact halloc s2 id2 ha hs hid
@@ -2351,5 +2352,1016 @@ theorem c07s_handle_gen {hash : Nat → Nat} {ops : List Op} {w : World}
     (hid : id ∈ ctxIds c) :
     ∃ v, w.st.slots[id.idx]? = some v ∧ v.updatedAt ≠ none ∧ v.gen = id.gen :=
   (runOps_inv winv_empty h).owns c hc id hid
+
+/-- `c07s_no_delete_in_rev` (a): a struct whose slot was created / updated / read in revision `r`
+    (`updatedAt = some r`) cannot be deleted in `r`: `delete_entity` panics ("cannot delete
+    read-locked id"); the model returns the error and no successor state.  (In Rust the
+    `updated_at.swap(None)` has already happened when the panic is raised: after a caught unwind
+    the slot is left as in `deleteEntityUnwound`, write-locked and NOT on the free list.) -/
+theorem c07s_no_delete_in_rev {s : State} {r g : Nat} {id : Id} {v : Slot}
+    (hv : s.slots[id.idx]? = some v) (hu : v.updatedAt = some r) :
+    deleteEntity s r g id = .error .deleteReadLocked := by
+  simp [deleteEntity, hv, hu]
+
+/-- (a') consequently a diff (`deleteAll`) over a list containing such a struct does not succeed -/
+theorem c07s_no_delete_in_rev_all {s : State} {r : Nat} {l : List (Identity × Id)}
+    {x : Identity × Id} {v : Slot} (hx : x ∈ l) (hv : s.slots[x.2.idx]? = some v)
+    (hu : v.updatedAt = some r) : ∀ s', deleteAll s r l ≠ .ok s' := by
+  intro s' h
+  obtain ⟨v', hv', hd, _⟩ := deleteAll_dead h hx
+  rw [deleteAll_keeps_cur h hv hu] at hv'
+  cases hv'
+  rw [hu] at hd; cases hd
+
+/-- (b) creation / update / re-validation by `newStruct` in revision `cur` stamps the slot of the
+    returned id with `cur` -/
+theorem c07s_new_stamps {hash : Nat → Nat} {cur dur ca g : Nat} {fields : Fields} {f : Frame}
+    {s : State} {out : NewStruct} (h : newStruct hash cur dur ca g fields f s = .ok out) :
+    ∃ v, out.state.slots[out.id.idx]? = some v ∧ v.updatedAt = some cur := by
+  have halloc : ∀ s2 id2, allocate s cur dur ca g fields = .ok (s2, id2) →
+      ∃ v, s2.slots[id2.idx]? = some v ∧ v.updatedAt = some cur := by
+    intro s2 id2 ha
+    obtain ⟨_, hcase⟩ := allocate_cases ha
+    rcases hcase with ⟨id0, v0, _, _, _, _, hv0, hslots⟩ | ⟨_, hid, hslots⟩
+    · exact ⟨_, by rw [hslots]; exact getElem?_set_self' hv0, rfl⟩
+    · refine ⟨newValue 0 cur dur ca fields, ?_, rfl⟩
+      rw [hslots, hid]
+      simp
+  obtain ⟨_, _, hcase⟩ := newStruct_cases h
+  rcases hcase with ⟨id, v, _, hv, hu, _, hs, hid⟩ | ⟨id, v, last, s2, id2, _, _, _, _, _, ha, _, hs, hid⟩ |
+    ⟨id, v, last, _, hv, _, _, _, hs, hc⟩ | ⟨_, s2, id2, ha, _, hs, hid⟩
+  · exact ⟨v, by rw [hs, hid]; exact hv, hu⟩
+  · rw [hs, hid]; exact halloc s2 id2 ha
+  · have hidx : out.id.idx = id.idx := by
+      rcases hc with ⟨_, hid, _⟩ | ⟨_, hid, _⟩ <;> rw [hid]
+    exact ⟨_, by rw [hs, hidx]; exact getElem?_set_self' hv, rfl⟩
+  · rw [hs, hid]; exact halloc s2 id2 ha
+
+/-- (b') a field read in revision `cur` stamps the slot with `cur` -/
+theorem c07s_read_stamps {s s' : State} {cur idx : Nat} (h : readField s cur idx = .ok s') :
+    ∃ v, s'.slots[idx]? = some v ∧ v.updatedAt = some cur := by
+  obtain ⟨v, r, hv, _, hs⟩ := readField_cases h
+  exact ⟨_, by rw [hs]; exact getElem?_set_self' hv, rfl⟩
+
+/-- (c) a slot stamped with the current revision is frozen for `newStruct` in that revision: it is
+    neither updated (the `updated_at == cur` early return), nor re-allocated (it is not on the
+    free list), so in particular its generation is not bumped and its memos are kept. -/
+theorem c07s_frozen_in_rev {hash : Nat → Nat} {cur dur ca g : Nat} {fields : Fields} {f : Frame}
+    {s : State} {out : NewStruct} (h : newStruct hash cur dur ca g fields f s = .ok out)
+    (hF : FreeOK s) {k : Nat} {v : Slot} (hv : s.slots[k]? = some v)
+    (hu : v.updatedAt = some cur) : out.state.slots[k]? = some v := by
+  have hk : k < s.slots.length := by
+    rcases Nat.lt_or_ge k s.slots.length with h1 | h1
+    · exact h1
+    · rw [List.getElem?_eq_none h1] at hv; cases hv
+  have halloc : ∀ s2 id2, allocate s cur dur ca g fields = .ok (s2, id2) →
+      s2.slots[k]? = some v := by
+    intro s2 id2 ha
+    obtain ⟨_, hcase⟩ := allocate_cases ha
+    rcases hcase with ⟨id0, v0, hmem, _, hid2, _, _, hslots⟩ | ⟨_, _, hslots⟩
+    · have hne : id2.idx ≠ k := by
+        intro hc
+        obtain ⟨vd, hvd, hdd, _⟩ := hF _ hmem
+        have : id0.idx = k := by rw [← hc, hid2]
+        rw [show ((g, id0) : Nat × Id).2.idx = k from this, hv] at hvd
+        cases hvd
+        rw [hu] at hdd; cases hdd
+      rw [hslots, List.getElem?_set_ne hne]; exact hv
+    · rw [hslots, List.getElem?_append_left hk]; exact hv
+  obtain ⟨_, _, hcase⟩ := newStruct_cases h
+  rcases hcase with ⟨id, v0, _, _, _, _, hs, _⟩ | ⟨id, v0, last, s2, id2, _, _, _, _, _, ha, _, hs, _⟩ |
+    ⟨id, v0, last, _, hv0, hl, hne, _, hs, _⟩ | ⟨_, s2, id2, ha, _, hs, _⟩
+  · rw [hs]; exact hv
+  · rw [hs]; exact halloc s2 id2 ha
+  · have hki : id.idx ≠ k := by
+      intro hc
+      rw [hc, hv] at hv0
+      cases hv0
+      rw [hu] at hl; cases hl
+      exact hne rfl
+    rw [hs]
+    show (s.slots.set id.idx _)[k]? = some v
+    rw [List.getElem?_set_ne hki]; exact hv
+  · rw [hs]; exact halloc s2 id2 ha
+
+/-- (d) a slot stamped with any revision is not on the free list (state satisfying `FreeOK`) -/
+theorem c07s_stamped_not_free {s : State} (hF : FreeOK s) {k : Nat} {v : Slot} {r : Nat}
+    (hv : s.slots[k]? = some v) (hu : v.updatedAt = some r) : k ∉ freeIdxs s.free := by
+  intro hmem
+  obtain ⟨p, hp, hpk⟩ := mem_freeIdxs.mp hmem
+  exact free_not_live hF hp (hpk ▸ ⟨v, hv, by rw [hu]; simp⟩)
+
+/-- (e) world level: in a reachable world, no op running in revision `r` changes a slot that is
+    stamped with `r`, except `read r` (idempotent re-stamp) and `addMemo` (memo insertion);
+    `finish`/`discard` in `r` whose diff contains the struct panic. -/
+theorem c07s_frozen_step {hash : Nat → Nat} {w w' : World} (hI : WInv w) {k : Nat} {v : Slot}
+    {r : Nat} (hv : w.st.slots[k]? = some v) (hu : v.updatedAt = some r) :
+    (∀ q dur ca g fields, step hash w (.new q r dur ca g fields) = .ok w' →
+        w'.st.slots[k]? = some v) ∧
+    (∀ q, step hash w (.finish q r) = .ok w' → w'.st.slots[k]? = some v) ∧
+    (∀ q, step hash w (.discard q r) = .ok w' → w'.st.slots[k]? = some v) ∧
+    (∀ idx, step hash w (.read r idx) = .ok w' → w'.st.slots[k]? = some v) := by
+  refine ⟨?_, ?_, ?_, ?_⟩
+  · intro q dur ca g fields h
+    simp only [step] at h
+    split at h
+    · split at h
+      · cases h
+      · rename_i out hns
+        simp only [Except.ok.injEq] at h
+        subst h
+        exact c07s_frozen_in_rev hns hI.freeOK hv hu
+    · cases h
+  · intro q h
+    simp only [step] at h
+    split at h
+    · split at h
+      · cases h
+      · rename_i s2 hdel
+        simp only [Except.ok.injEq] at h
+        subst h
+        exact deleteAll_keeps_cur hdel hv hu
+    · cases h
+  · intro q h
+    simp only [step] at h
+    split at h
+    · split at h
+      · cases h
+      · rename_i s2 hdel
+        simp only [Except.ok.injEq] at h
+        subst h
+        exact deleteAll_keeps_cur hdel hv hu
+    · cases h
+  · intro idx h
+    simp only [step] at h
+    split at h
+    · cases h
+    · rename_i s2 hrd
+      simp only [Except.ok.injEq] at h
+      subst h
+      obtain ⟨v0, r0, hv0, _, hs⟩ := readField_cases hrd
+      subst hs
+      by_cases hk : idx = k
+      · subst hk
+        rw [hv] at hv0; cases hv0
+        show (w.st.slots.set idx _)[idx]? = some v
+        rw [getElem?_set_self' hv]
+        congr 1
+        cases v
+        simp only at hu
+        simp [hu]
+      · show (w.st.slots.set idx _)[k]? = some v
+        rw [List.getElem?_set_ne hk]; exact hv
+
+/-! ### hash consistency: the recorded identity hash is the hash of the stored identity value -/
+
+theorem newStruct_hashOK {hash : Nat → Nat} {cur dur ca g : Nat} {fields : Fields} {f : Frame}
+    {s : State} {out : NewStruct} (h : newStruct hash cur dur ca g fields f s = .ok out)
+    (hI : FInv f s) (hH : ∀ e, e ∈ f.idmap → HashAt hash s e.pair) :
+    ∀ e, e ∈ out.frame.idmap → HashAt hash out.state e.pair := by
+  have hm1own : ∀ e, e ∈ nsM1 hash f g fields →
+      ∃ e0, e0 ∈ f.idmap ∧ e.identity = e0.identity ∧ e.id = e0.id := by
+    intro e he
+    obtain ⟨e0, h0, h1, h2, _⟩ := mem_markActive he
+    exact ⟨e0, h0, h1, h2⟩
+  have hpair : ∀ e e0 : Entry, e.identity = e0.identity → e.id = e0.id → e.pair = e0.pair := by
+    intro e e0 h1 h2; simp [Entry.pair, h1, h2]
+  have hIhash : (newIdentity hash f g fields).hash = hash fields.idv := rfl
+  have halloc : ∀ s2 id2, allocate s cur dur ca g fields = .ok (s2, id2) →
+      out.frame.idmap
+        = IdentityMap.insertEntry (nsM1 hash f g fields) (newIdentity hash f g fields) id2 true →
+      out.state = s2 → ∀ e, e ∈ out.frame.idmap → HashAt hash out.state e.pair := by
+    intro s2 id2 ha hmap hs e he
+    obtain ⟨hnl, ht, _⟩ := allocate_spec ha hI.freeOK hI.freeNodup
+    rw [hmap] at he
+    rw [hs]
+    rcases mem_insertEntry he with h1 | h1
+    · rw [h1]
+      exact ⟨_, ht.2, by simp [newValue, Entry.pair, hIhash]⟩
+    · obtain ⟨e0, h0, hi0, hd0⟩ := hm1own e h1
+      rw [hpair e e0 hi0 hd0]
+      have hne : e0.id.idx ≠ id2.idx := fun hc => hnl (hc ▸ (hI.owns e0 h0).live)
+      obtain ⟨v, hv, hh⟩ := hH e0 h0
+      exact ⟨v, (ht.1 _ hne).trans hv, hh⟩
+  obtain ⟨_, _, hcase⟩ := newStruct_cases h
+  rcases hcase with ⟨id, v, hfind, hv, hu, hmap, hs, hid⟩ |
+    ⟨id, v, last, s2, id2, _, _, _, _, _, ha, hmap, hs, hid⟩ |
+    ⟨id, v, last, hfind, hv, hl, _, _, hs, hch⟩ | ⟨_, s2, id2, ha, hmap, hs, hid⟩
+  · intro e he
+    rw [hmap] at he
+    obtain ⟨e0, h0, hi0, hd0⟩ := hm1own e he
+    rw [hs, hpair e e0 hi0 hd0]; exact hH e0 h0
+  · exact halloc s2 id2 ha hmap hs
+  · have ht : Touch s out.state id.idx (updatedValue v cur dur ca id fields) := by
+      rw [hs]; exact touch_set hv
+    have hnewslot : hash (updatedValue v cur dur ca id fields).fields.idv
+        = (newIdentity hash f g fields).hash := by
+      show hash (updateFields ca v.revs v.fields fields).fields.idv = _
+      rw [updateFields_fields]; rfl
+    have hold : ∀ e0, e0 ∈ f.idmap → e0.id.idx ≠ id.idx → HashAt hash out.state e0.pair := by
+      intro e0 h0 hne
+      obtain ⟨v0, hv0, hh⟩ := hH e0 h0
+      exact ⟨v0, (ht.1 _ hne).trans hv0, hh⟩
+    rcases hch with ⟨_, hid, hmap⟩ | ⟨_, hid, hmap⟩
+    · intro e he
+      rw [hmap] at he
+      obtain ⟨e0, h0, hi0, hd0⟩ := hm1own e he
+      rw [hpair e e0 hi0 hd0]
+      by_cases hi : e0.id.idx = id.idx
+      · obtain ⟨hx, hy⟩ := mem_idx_eq_find hI.nodup hfind h0 hi
+        refine ⟨_, by rw [show e0.pair.2.idx = id.idx from hi]; exact ht.2, ?_⟩
+        rw [hnewslot]; simp [Entry.pair, hy]
+      · exact hold e0 h0 hi
+    · have hfind1 : IdentityMap.find (nsM1 hash f g fields) (newIdentity hash f g fields)
+          = some id := by
+        unfold nsM1; rw [find_markActive]; exact hfind
+      have hm1 : idxs (nsM1 hash f g fields) = idxs f.idmap := idxs_markActive _ _
+      intro e he
+      rw [hmap] at he
+      rcases mem_insertEntry_of_find (hm1 ▸ hI.nodup) hfind1 he with h1 | ⟨h1, h2⟩
+      · rw [h1]
+        exact ⟨_, ht.2, hnewslot⟩
+      · obtain ⟨e0, h0, hi0, hd0⟩ := hm1own e h1
+        rw [hpair e e0 hi0 hd0]
+        exact hold e0 h0 (hd0 ▸ h2)
+  · exact halloc s2 id2 ha hmap hs
+
+/-- the (identity, id) pairs a creator holds -/
+def ctxPairs : Ctx → List (Identity × Id)
+  | .idle a => a
+  | .running f => f.idmap.map Entry.pair
+
+theorem ctxIds_eq (c : Ctx) : ctxIds c = (ctxPairs c).map (fun x => x.2) := by
+  cases c with
+  | idle a => rfl
+  | running f => simp [ctxIds, ctxPairs, List.map_map, Entry.pair]
+
+theorem ctxIdxs_eq (c : Ctx) : ctxIdxs c = pairIdxs (ctxPairs c) := by
+  cases c with
+  | idle a => rfl
+  | running f => simp [ctxIdxs, ctxPairs, pairIdxs, idxs, List.map_map, Entry.pair]
+
+/-- hash consistency of every handle of every creator -/
+def WHash (hash : Nat → Nat) (w : World) : Prop :=
+  ∀ c, c ∈ w.ctxs → ∀ x, x ∈ ctxPairs c → HashAt hash w.st x
+
+theorem whash_replace {hash : Nat → Nat} {w : World} {q : Nat} {c c' : Ctx} {s' : State}
+    (hI : WInv w) (hH : WHash hash w) (hq : w.ctxs[q]? = some c)
+    (hown' : ∀ x, x ∈ ctxPairs c' → HashAt hash s' x)
+    (hoth : ∀ k, k ∉ ctxIdxs c → Live w.st k → s'.slots[k]? = w.st.slots[k]?) :
+    WHash hash ⟨s', w.ctxs.set q c'⟩ := by
+  intro c0 hc0 x hx
+  obtain ⟨i, hi⟩ := List.mem_iff_getElem?.mp hc0
+  simp only [List.getElem?_set] at hi
+  by_cases hqi : q = i
+  · rw [if_pos hqi] at hi
+    split at hi
+    · cases hi; exact hown' x hx
+    · cases hi
+  · rw [if_neg hqi] at hi
+    have hc0' : c0 ∈ w.ctxs := List.mem_of_getElem? hi
+    have hxi : x.2.idx ∈ ctxIdxs c0 := by
+      rw [ctxIdxs_eq]; exact mem_pairIdxs.mpr ⟨x, hx, rfl⟩
+    have hnot : x.2.idx ∉ ctxIdxs c := winv_cross hI hi hq (Ne.symm hqi) hxi
+    have hlive : Live w.st x.2.idx := by
+      apply Owns.live (id := x.2)
+      apply hI.owns c0 hc0'
+      rw [ctxIds_eq]; exact List.mem_map.mpr ⟨x, hx, rfl⟩
+    obtain ⟨v, hv, hh⟩ := hH c0 hc0' x hx
+    exact ⟨v, by rw [hoth _ hnot hlive]; exact hv, hh⟩
+
+theorem whash_touch {hash : Nat → Nat} {w : World} {s' : State} {k : Nat} {v v' : Slot}
+    (hH : WHash hash w) (hv : w.st.slots[k]? = some v) (ht : Touch w.st s' k v')
+    (hf : v'.fields = v.fields) : WHash hash ⟨s', w.ctxs⟩ := by
+  intro c hc x hx
+  obtain ⟨v0, hv0, hh⟩ := hH c hc x hx
+  by_cases hk : x.2.idx = k
+  · rw [hk, hv] at hv0
+    cases hv0
+    exact ⟨v', by rw [hk]; exact ht.2, by rw [hf]; exact hh⟩
+  · exact ⟨v0, by rw [ht.1 _ hk]; exact hv0, hh⟩
+
+theorem step_hash {hash : Nat → Nat} {w w' : World} {op : Op} (hI : WInv w) (hH : WHash hash w)
+    (h : step hash w op = .ok w') : WHash hash w' := by
+  cases op with
+  | spawn =>
+    simp only [step, Except.ok.injEq] at h
+    subst h
+    intro c hc x hx
+    rcases List.mem_append.mp hc with hc | hc
+    · exact hH c hc x hx
+    · simp only [List.mem_singleton] at hc
+      subst hc
+      simp [ctxPairs] at hx
+  | «begin» q =>
+    simp only [step] at h
+    split at h
+    · rename_i a hq
+      simp only [Except.ok.injEq] at h
+      subst h
+      apply whash_replace hI hH hq
+      · intro x hx
+        simp only [ctxPairs, Frame.seed, List.mem_map] at hx
+        obtain ⟨e, he, hex⟩ := hx
+        rcases mem_seed he with h1 | ⟨h1, _⟩
+        · simp at h1
+        · exact hex ▸ hH _ (List.mem_of_getElem? hq) e.pair h1
+      · intro k _ _; rfl
+    · cases h
+  | new q cur dur ca g fields =>
+    simp only [step] at h
+    split at h
+    · rename_i f hq
+      split at h
+      · cases h
+      · rename_i out hns
+        simp only [Except.ok.injEq] at h
+        subst h
+        have hF : FInv f w.st := ⟨hI.freeOK, hI.freeNodup,
+          fun e he => ctx_owns hI hq e.id (by simp only [ctxIds, List.mem_map]; exact ⟨e, he, rfl⟩),
+          ctx_nodup hI hq⟩
+        have hN := newStruct_inv hns hF.freeOK hF.freeNodup hF.owns hF.nodup
+        apply whash_replace hI hH hq
+        · intro x hx
+          simp only [ctxPairs, List.mem_map] at hx
+          obtain ⟨e, he, hex⟩ := hx
+          rw [← hex]
+          apply newStruct_hashOK hns hF _ e he
+          intro e0 he0
+          exact hH _ (List.mem_of_getElem? hq) e0.pair (by
+            simp only [ctxPairs, List.mem_map]; exact ⟨e0, he0, rfl⟩)
+        · exact hN.others
+    · cases h
+  | finish q cur =>
+    simp only [step] at h
+    split at h
+    · rename_i f hq
+      split at h
+      · cases h
+      · rename_i s2 hdel
+        simp only [Except.ok.injEq] at h
+        subst h
+        have hnd : (idxs f.idmap).Nodup := ctx_nodup hI hq
+        have hownE : ∀ e, e ∈ f.idmap → Owns w.st e.id := fun e he =>
+          ctx_owns hI hq e.id (by simp only [ctxIds, List.mem_map]; exact ⟨e, he, rfl⟩)
+        have hstale_idx : ∀ n, n ∈ pairIdxs (IdentityMap.drain f.idmap).2 → n ∈ idxs f.idmap := by
+          intro n hn
+          obtain ⟨x, hx, hxn⟩ := mem_pairIdxs.mp hn
+          obtain ⟨e, he, _, hp⟩ := mem_drain_stale.mp hx
+          exact mem_idxs.mpr ⟨e, he, by rw [← hxn, ← hp]; rfl⟩
+        have hS := deleteAll_spec hdel hI.freeOK hI.freeNodup (by
+          intro x hx
+          obtain ⟨e, he, _, hp⟩ := mem_drain_stale.mp hx
+          rw [← hp]; exact hownE e he) (drain_stale_nodup hnd)
+        apply whash_replace hI hH hq
+        · intro x hx
+          simp only [ctxPairs] at hx
+          obtain ⟨e, he, _, hp⟩ := mem_drain_active.mp hx
+          obtain ⟨v, hv, hh⟩ := hH _ (List.mem_of_getElem? hq) e.pair (by
+            simp only [ctxPairs, List.mem_map]; exact ⟨e, he, rfl⟩)
+          rw [← hp]
+          refine ⟨v, ?_, hh⟩
+          rw [hS.others]
+          · exact hv
+          · intro hmem
+            obtain ⟨y, hy, hyn⟩ := mem_pairIdxs.mp hmem
+            exact drain_disjoint hnd hx hy (by rw [← hp, hyn])
+        · intro k hk _
+          exact hS.others k (fun hmem => hk (hstale_idx k hmem))
+    · cases h
+  | discard q cur =>
+    simp only [step] at h
+    split at h
+    · rename_i a hq
+      split at h
+      · cases h
+      · rename_i s2 hdel
+        simp only [Except.ok.injEq] at h
+        subst h
+        have hS := deleteAll_spec hdel hI.freeOK hI.freeNodup (by
+          intro x hx
+          exact ctx_owns hI hq x.2 (by simp only [ctxIds, List.mem_map]; exact ⟨x, hx, rfl⟩))
+          (ctx_nodup hI hq)
+        apply whash_replace hI hH hq
+        · intro x hx; simp [ctxPairs] at hx
+        · intro k hk _; exact hS.others k hk
+    · cases h
+  | read cur idx =>
+    simp only [step] at h
+    split at h
+    · cases h
+    · rename_i s2 hrd
+      simp only [Except.ok.injEq] at h
+      subst h
+      obtain ⟨v, r, hv, _, hs⟩ := readField_cases hrd
+      subst hs
+      exact whash_touch hH hv (touch_set hv) rfl
+  | addMemo idx payload =>
+    simp only [step] at h
+    split at h
+    · cases h
+    · rename_i s2 hrd
+      simp only [Except.ok.injEq] at h
+      subst h
+      obtain ⟨v, r, hv, _, hs⟩ := addMemo_cases hrd
+      subst hs
+      exact whash_touch hH hv (touch_set hv) rfl
+
+theorem runOps_hash {hash : Nat → Nat} {w w' : World} {ops : List Op} (hI : WInv w)
+    (hH : WHash hash w) (h : runOps hash w ops = .ok w') : WHash hash w' := by
+  induction ops generalizing w with
+  | nil => simp only [runOps, Except.ok.injEq] at h; exact h ▸ hH
+  | cons op rest ih =>
+    unfold runOps at h
+    split at h
+    · cases h
+    · rename_i w1 h1
+      exact ih (step_inv hI h1) (step_hash hI hH h1) h
+
+theorem whash_empty (hash : Nat → Nat) : WHash hash World.empty := by
+  intro c hc; simp [World.empty] at hc
+
+/-! ### the identity map is a function: keys are pairwise distinct -/
+
+def keys (m : List Entry) : List Identity := m.map (fun e => e.identity)
+
+theorem keys_markActive (m : List Entry) (key : Identity) :
+    keys (IdentityMap.markActive m key) = keys m := by
+  induction m with
+  | nil => rfl
+  | cons e rest ih =>
+    by_cases hk : e.identity = key
+    · simp [IdentityMap.markActive, hk, keys]
+    · simp only [IdentityMap.markActive, hk, if_false]
+      show e.identity :: keys (IdentityMap.markActive rest key) = e.identity :: keys rest
+      rw [ih]
+
+theorem mem_keys_insertEntry {m : List Entry} {key : Identity} {id : Id} {a : Bool} {k : Identity}
+    (h : k ∈ keys (IdentityMap.insertEntry m key id a)) : k = key ∨ k ∈ keys m := by
+  simp only [keys, List.mem_map] at h ⊢
+  obtain ⟨e, he, hek⟩ := h
+  rcases mem_insertEntry he with h1 | h1
+  · left; rw [← hek, h1]
+  · right; exact ⟨e, h1, hek⟩
+
+theorem keys_insertEntry_nodup {m : List Entry} {key : Identity} {id : Id} {a : Bool}
+    (h : (keys m).Nodup) : (keys (IdentityMap.insertEntry m key id a)).Nodup := by
+  induction m with
+  | nil => simp [IdentityMap.insertEntry, keys]
+  | cons e rest ih =>
+    have h' : e.identity ∉ keys rest ∧ (keys rest).Nodup := by
+      simpa [keys, List.nodup_cons] using h
+    by_cases hk : e.identity = key
+    · simp only [IdentityMap.insertEntry, hk, if_true]
+      show (key :: keys rest).Nodup
+      exact List.nodup_cons.mpr ⟨hk ▸ h'.1, h'.2⟩
+    · simp only [IdentityMap.insertEntry, hk, if_false]
+      show (e.identity :: keys (IdentityMap.insertEntry rest key id a)).Nodup
+      refine List.nodup_cons.mpr ⟨?_, ih h'.2⟩
+      intro hmem
+      rcases mem_keys_insertEntry hmem with h1 | h1
+      · exact hk h1
+      · exact h'.1 h1
+
+theorem keys_seed_nodup {m : List Entry} {a : List (Identity × Id)} (h : (keys m).Nodup) :
+    (keys (IdentityMap.seed m a)).Nodup := by
+  induction a generalizing m with
+  | nil => exact h
+  | cons x rest ih =>
+    obtain ⟨key, id⟩ := x
+    simp only [IdentityMap.seed]
+    exact ih (keys_insertEntry_nodup h)
+
+theorem newStruct_keys_nodup {hash : Nat → Nat} {cur dur ca g : Nat} {fields : Fields} {f : Frame}
+    {s : State} {out : NewStruct} (h : newStruct hash cur dur ca g fields f s = .ok out)
+    (hk : (keys f.idmap).Nodup) : (keys out.frame.idmap).Nodup := by
+  rcases newStruct_idmap h with hm | ⟨id', hm⟩
+  · rw [hm, keys_markActive]; exact hk
+  · rw [hm]; exact keys_insertEntry_nodup (by rw [keys_markActive]; exact hk)
+
+theorem runCreations_keys_nodup {hash : Nat → Nat} {cur : Nat} {cs : List Creation} {f f' : Frame}
+    {s s' : State} {rs : List (Identity × Id)}
+    (h : runCreations hash cur cs f s = .ok (f', s', rs)) (hk : (keys f.idmap).Nodup) :
+    (keys f'.idmap).Nodup := by
+  induction cs generalizing f s rs with
+  | nil =>
+    simp only [runCreations, Except.ok.injEq, Prod.mk.injEq] at h
+    obtain ⟨h1, _, _⟩ := h
+    subst h1; exact hk
+  | cons c rest ih =>
+    obtain ⟨out, f1, s1, rs1, hns, hrest, hr⟩ := runCreations_cons h
+    simp only [Prod.mk.injEq] at hr
+    obtain ⟨hr1, hr2, _⟩ := hr
+    subst hr1; subst hr2
+    exact ih hrest (newStruct_keys_nodup hns hk)
+
+theorem drain_active_keys_nodup {m : List Entry} (h : (keys m).Nodup) :
+    ((IdentityMap.drain m).1.map (fun x => x.1)).Nodup := by
+  unfold IdentityMap.drain
+  simp only [List.map_map]
+  exact List.Nodup.sublist ((List.filter_sublist (l := m)).map _) h
+
+theorem find_seed_not_mem {m : List Entry} {a : List (Identity × Id)} {I : Identity}
+    (h : I ∉ a.map (fun x => x.1)) :
+    IdentityMap.find (IdentityMap.seed m a) I = IdentityMap.find m I := by
+  induction a generalizing m with
+  | nil => rfl
+  | cons x rest ih =>
+    obtain ⟨key, id⟩ := x
+    have h' : ¬ I = key ∧ I ∉ rest.map (fun x => x.1) := by
+      simpa [List.mem_cons] using h
+    simp only [IdentityMap.seed]
+    rw [ih h'.2, find_insertEntry, if_neg (fun hc => h'.1 hc.symm)]
+
+/-- seeding from a list with pairwise distinct identities records exactly the list -/
+theorem find_seed_of_mem {m : List Entry} {a : List (Identity × Id)} {I : Identity} {id : Id}
+    (hk : (a.map (fun x => x.1)).Nodup) (h : (I, id) ∈ a) :
+    IdentityMap.find (IdentityMap.seed m a) I = some id := by
+  induction a generalizing m with
+  | nil => simp at h
+  | cons x rest ih =>
+    obtain ⟨key, id0⟩ := x
+    have hk' : key ∉ rest.map (fun x => x.1) ∧ (rest.map (fun x => x.1)).Nodup := by
+      simpa [List.nodup_cons] using hk
+    simp only [IdentityMap.seed]
+    rcases List.mem_cons.mp h with h1 | h1
+    · simp only [Prod.mk.injEq] at h1
+      obtain ⟨h2, h3⟩ := h1
+      subst h2; subst h3
+      rw [find_seed_not_mem hk'.1, find_insertEntry, if_pos rfl]
+    · exact ih hk'.2 h1
+
+/-- every struct created by an execution is in the new memo's id list, under the identity it was
+    registered with, and seeding the next execution from that list finds it again -/
+theorem runExecution_created_active {hash : Nat → Nat} {cur : Nat} {prev : List (Identity × Id)}
+    {cs : List Creation} {s : State} {out : ExecOut}
+    (h : runExecution hash cur prev cs s = .ok out)
+    (hF : FreeOK s) (hN : FreeNodup s) (hown : ∀ x, x ∈ prev → Owns s x.2)
+    (hnd : (pairIdxs prev).Nodup) :
+    (out.active.map (fun x => x.1)).Nodup ∧
+    ∀ x, x ∈ out.created → x ∈ out.active ∧
+      IdentityMap.find (Frame.seed out.active).idmap x.1 = some x.2 := by
+  obtain ⟨f1, s1, hrun, hdel, hact, _⟩ := runExecution_cases h
+  have hI := finv_seed hF hN hown hnd
+  have hkeys : (keys f1.idmap).Nodup :=
+    runCreations_keys_nodup hrun (keys_seed_nodup (m := []) (by simp [keys]))
+  have hand : (out.active.map (fun x => x.1)).Nodup := by
+    rw [hact]; exact drain_active_keys_nodup hkeys
+  refine ⟨hand, ?_⟩
+  -- generalised over the remaining creations
+  have key : ∀ (cs : List Creation) (f : Frame) (s0 : State) (rs : List (Identity × Id)),
+      runCreations hash cur cs f s0 = .ok (f1, s1, rs) → FInv f s0 →
+      ∀ x, x ∈ rs → IdentityMap.find f1.idmap x.1 = some x.2 ∧
+        ∃ v, s1.slots[x.2.idx]? = some v ∧ v.updatedAt = some cur := by
+    intro cs
+    induction cs with
+    | nil =>
+      intro f s0 rs hr _ x hx
+      simp only [runCreations, Except.ok.injEq, Prod.mk.injEq] at hr
+      obtain ⟨_, _, h3⟩ := hr
+      subst h3; simp at hx
+    | cons c rest ih =>
+      intro f s0 rs hr hI0 x hx
+      obtain ⟨o, f2, s2, rs2, hns, hrest, hrr⟩ := runCreations_cons hr
+      simp only [Prod.mk.injEq] at hrr
+      obtain ⟨hr1, hr2, hr3⟩ := hrr
+      subst hr1; subst hr2; subst hr3
+      have hI1 := newStruct_finv hns hI0
+      rcases List.mem_cons.mp hx with h1 | h1
+      · subst h1
+        obtain ⟨a1, a2⟩ := runCreations_other hrest hI1 (runCreations_head_ne hns hrest)
+          (newStruct_find_self hns)
+        obtain ⟨v, hv, hu⟩ := c07s_new_stamps hns
+        exact ⟨a1, v, a2.trans hv, hu⟩
+      · exact ih o.frame o.state rs2 hrest hI1 x h1
+  intro x hx
+  obtain ⟨hfind, v, hv, hu⟩ := key cs _ s out.created hrun hI x hx
+  have hmem : x ∈ out.active := by
+    obtain ⟨e, he, heI, heid⟩ := find_some_mem hfind
+    rw [hact]
+    cases ha : e.active with
+    | true => exact mem_drain_active.mpr ⟨e, he, ha, by simp [Entry.pair, heI, heid]⟩
+    | false =>
+      exfalso
+      have hst : x ∈ (IdentityMap.drain f1.idmap).2 :=
+        mem_drain_stale.mpr ⟨e, he, ha, by simp [Entry.pair, heI, heid]⟩
+      exact c07s_no_delete_in_rev_all hst hv hu _ hdel
+  exact ⟨hmem, find_seed_of_mem hand hmem⟩
+
+theorem runCreations_hashOK {hash : Nat → Nat} {cur : Nat} {cs : List Creation} {f f' : Frame}
+    {s s' : State} {rs : List (Identity × Id)}
+    (h : runCreations hash cur cs f s = .ok (f', s', rs)) (hI : FInv f s)
+    (hH : ∀ e, e ∈ f.idmap → HashAt hash s e.pair) :
+    ∀ e, e ∈ f'.idmap → HashAt hash s' e.pair := by
+  induction cs generalizing f s rs with
+  | nil =>
+    simp only [runCreations, Except.ok.injEq, Prod.mk.injEq] at h
+    obtain ⟨h1, h2, _⟩ := h
+    subst h1; subst h2; exact hH
+  | cons c rest ih =>
+    obtain ⟨out, f1, s1, rs1, hns, hrest, hr⟩ := runCreations_cons h
+    simp only [Prod.mk.injEq] at hr
+    obtain ⟨hr1, hr2, _⟩ := hr
+    subst hr1; subst hr2
+    exact ih hrest (newStruct_finv hns hI) (newStruct_hashOK hns hI hH)
+
+/-- the consistency conditions assumed by `c06_same_id` hold again after the execution, for the
+    new memo's id list -/
+theorem runExecution_post {hash : Nat → Nat} {cur : Nat} {prev : List (Identity × Id)}
+    {cs : List Creation} {s : State} {out : ExecOut}
+    (h : runExecution hash cur prev cs s = .ok out)
+    (hF : FreeOK s) (hN : FreeNodup s) (hown : ∀ x, x ∈ prev → Owns s x.2)
+    (hnd : (pairIdxs prev).Nodup) (hhash : ∀ x, x ∈ prev → HashAt hash s x) :
+    FreeOK out.state ∧ FreeNodup out.state ∧ (∀ x, x ∈ out.active → Owns out.state x.2) ∧
+    (pairIdxs out.active).Nodup ∧ (∀ x, x ∈ out.active → HashAt hash out.state x) := by
+  obtain ⟨f1, s1, hrun, hdel, hact, _⟩ := runExecution_cases h
+  have hI := finv_seed hF hN hown hnd
+  have hI1 := runCreations_finv hrun hI
+  have hH1 := runCreations_hashOK hrun hI (by
+    intro e he
+    rcases mem_seed he with h1 | ⟨h1, _⟩
+    · simp at h1
+    · exact hhash e.pair h1)
+  have hS := deleteAll_spec hdel hI1.freeOK hI1.freeNodup (by
+    intro x hx
+    obtain ⟨e, he, _, hp⟩ := mem_drain_stale.mp hx
+    rw [← hp]; exact hI1.owns e he) (drain_stale_nodup hI1.nodup)
+  have hsame : ∀ x, x ∈ (IdentityMap.drain f1.idmap).1 →
+      out.state.slots[x.2.idx]? = s1.slots[x.2.idx]? := by
+    intro x hx
+    apply hS.others
+    intro hmem
+    obtain ⟨y, hy, hyn⟩ := mem_pairIdxs.mp hmem
+    exact drain_disjoint hI1.nodup hx hy hyn.symm
+  refine ⟨hS.freeOK, hS.freeNodup, ?_, by rw [hact]; exact drain_active_nodup hI1.nodup, ?_⟩
+  · intro x hx
+    rw [hact] at hx
+    obtain ⟨e, he, _, hp⟩ := mem_drain_active.mp hx
+    apply owns_of_slot_eq (hsame x hx)
+    rw [← hp]; exact hI1.owns e he
+  · intro x hx
+    rw [hact] at hx
+    obtain ⟨e, he, _, hp⟩ := mem_drain_active.mp hx
+    obtain ⟨v, hv, hh⟩ := hH1 e he
+    rw [hp] at hv hh
+    exact ⟨v, (hsame x hx).trans hv, hh⟩
+
+/-! ### an uninterrupted `begin; new…; finish` of the world is `runExecution` -/
+
+theorem set_same {α : Type} {l : List α} {q : Nat} {a : α} (h : l[q]? = some a) : l.set q a = l := by
+  apply List.ext_getElem?
+  intro i
+  rw [List.getElem?_set]
+  by_cases hqi : q = i
+  · subst hqi
+    obtain ⟨hq, _⟩ := List.getElem?_eq_some_iff.mp h
+    simp only [if_true, hq]
+    exact h.symm
+  · simp [hqi]
+
+theorem runOps_append {hash : Nat → Nat} {w w1 : World} {a b : List Op}
+    (h : runOps hash w a = .ok w1) : runOps hash w (a ++ b) = runOps hash w1 b := by
+  induction a generalizing w with
+  | nil => simp only [runOps, Except.ok.injEq] at h; subst h; rfl
+  | cons op rest ih =>
+    simp only [List.cons_append]
+    unfold runOps at h
+    split at h
+    · cases h
+    · rename_i w2 h2
+      rw [runOps, h2]
+      exact ih h
+
+/-- the op of creator `q` for one creation -/
+def newOp (q cur : Nat) (c : Creation) : Op := .new q cur c.dur c.changedAt c.ingr c.fields
+
+theorem runOps_news {hash : Nat → Nat} {cur q : Nat} {cs : List Creation} {f f' : Frame}
+    {w : World} {s' : State} {rs : List (Identity × Id)}
+    (hq : w.ctxs[q]? = some (Ctx.running f))
+    (h : runCreations hash cur cs f w.st = .ok (f', s', rs)) :
+    runOps hash w (cs.map (newOp q cur)) = .ok ⟨s', w.ctxs.set q (Ctx.running f')⟩ := by
+  induction cs generalizing w f rs with
+  | nil =>
+    simp only [runCreations, Except.ok.injEq, Prod.mk.injEq] at h
+    obtain ⟨h1, h2, _⟩ := h
+    subst h1; subst h2
+    simp only [List.map_nil, runOps, set_same hq]
+  | cons c rest ih =>
+    obtain ⟨out, f1, s1, rs1, hns, hrest, hr⟩ := runCreations_cons h
+    simp only [Prod.mk.injEq] at hr
+    obtain ⟨hr1, hr2, _⟩ := hr
+    subst hr1; subst hr2
+    obtain ⟨hql, _⟩ := List.getElem?_eq_some_iff.mp hq
+    have hstep : step hash w (newOp q cur c)
+        = .ok ⟨out.state, w.ctxs.set q (Ctx.running out.frame)⟩ := by
+      simp only [newOp, step, hq, hns]
+    simp only [List.map_cons, runOps, hstep]
+    have := ih (w := ⟨out.state, w.ctxs.set q (Ctx.running out.frame)⟩) (f := out.frame)
+      (by simp [List.getElem?_set_self hql]) hrest
+    rw [this]
+    simp [List.set_set]
+
+/-- `runExecution` is exactly the world's `begin q; new q …; finish q` run without interleaving -/
+theorem world_exec {hash : Nat → Nat} {cur q : Nat} {prev : List (Identity × Id)}
+    {cs : List Creation} {w : World} {out : ExecOut}
+    (hq : w.ctxs[q]? = some (Ctx.idle prev))
+    (h : runExecution hash cur prev cs w.st = .ok out) :
+    runOps hash w (Op.begin q :: (cs.map (newOp q cur) ++ [Op.finish q cur]))
+      = .ok ⟨out.state, w.ctxs.set q (Ctx.idle out.active)⟩ := by
+  obtain ⟨f1, s1, hrun, hdel, hact, _⟩ := runExecution_cases h
+  obtain ⟨hql, _⟩ := List.getElem?_eq_some_iff.mp hq
+  have hbegin : step hash w (Op.begin q)
+      = .ok ⟨w.st, w.ctxs.set q (Ctx.running (Frame.seed prev))⟩ := by
+    simp only [step, hq]
+  have hq1 : (w.ctxs.set q (Ctx.running (Frame.seed prev)))[q]?
+      = some (Ctx.running (Frame.seed prev)) := by simp [List.getElem?_set_self hql]
+  have hnews := runOps_news (w := ⟨w.st, w.ctxs.set q (Ctx.running (Frame.seed prev))⟩) hq1 hrun
+  simp only [runOps, hbegin]
+  rw [runOps_append hnews]
+  simp only [List.set_set, runOps, step, List.getElem?_set_self hql, hdel, hact]
+
+/-! ### converse of `FreeOK`: a deleted slot is on the free list unless its generation is exhausted -/
+
+/-- every deleted slot (`updatedAt = none`) is on the free list with its current generation,
+    unless it was leaked because its generation is exhausted -/
+def DeadOnFree (s : State) : Prop :=
+  ∀ (k : Nat) (v : Slot), s.slots[k]? = some v → v.updatedAt = none →
+    (∃ g, (g, (⟨k, v.gen⟩ : Id)) ∈ s.free) ∨ GEN_MAX ≤ v.gen
+
+theorem allocLoop_mem {g : Nat} {l : List (Nat × Id)} {p : Nat × Id} (hp : p ∈ l) :
+    p ∈ (allocLoop g l).2 ∨ GEN_MAX ≤ p.2.gen ∨
+    (allocLoop g l).1 = some ⟨p.2.idx, p.2.gen + 1⟩ := by
+  induction l with
+  | nil => simp at hp
+  | cons x rest ih =>
+    obtain ⟨g', id⟩ := x
+    unfold allocLoop
+    by_cases hg : g' = g
+    · simp only [hg, if_true]
+      cases hnext : id.nextGeneration with
+      | some id' =>
+        simp only
+        obtain ⟨_, hid'⟩ := nextGeneration_some hnext
+        rcases List.mem_cons.mp hp with h1 | h1
+        · right; right; rw [h1, hid']
+        · left; exact h1
+      | none =>
+        simp only
+        rcases List.mem_cons.mp hp with h1 | h1
+        · right; left
+          rw [h1]
+          unfold Id.nextGeneration at hnext
+          by_cases hlt : id.gen < GEN_MAX
+          · simp [hlt] at hnext
+          · exact Nat.le_of_not_lt hlt
+        · exact ih h1
+    · simp only [hg, if_false]
+      rcases List.mem_cons.mp hp with h1 | h1
+      · left; rw [h1]; exact List.mem_cons_self
+      · rcases ih h1 with h2 | h2 | h2
+        · left; exact List.mem_cons_of_mem _ h2
+        · right; left; exact h2
+        · right; right; exact h2
+
+theorem newStruct_deadOnFree {hash : Nat → Nat} {cur dur ca g : Nat} {fields : Fields} {f : Frame}
+    {s : State} {out : NewStruct} (h : newStruct hash cur dur ca g fields f s = .ok out)
+    (hD : DeadOnFree s) : DeadOnFree out.state := by
+  have halloc : ∀ s2 id2, allocate s cur dur ca g fields = .ok (s2, id2) → DeadOnFree s2 := by
+    intro s2 id2 ha k v hv hu
+    obtain ⟨hfree, hcase⟩ := allocate_cases ha
+    have hsame : k ≠ id2.idx → s.slots[k]? = some v := by
+      intro hne
+      rcases hcase with ⟨_, _, _, _, _, _, _, hslots⟩ | ⟨_, hid, hslots⟩
+      · rw [hslots, List.getElem?_set_ne (Ne.symm hne)] at hv; exact hv
+      · rw [hslots] at hv
+        rcases Nat.lt_or_ge k s.slots.length with h1 | h1
+        · rw [List.getElem?_append_left h1] at hv; exact hv
+        · have hgt : s.slots.length < k := by
+            rw [hid] at hne; exact Nat.lt_of_le_of_ne h1 (Ne.symm hne)
+          rw [List.getElem?_eq_none (by simp; omega)] at hv; cases hv
+    have hne : k ≠ id2.idx := by
+      intro hc
+      rcases hcase with ⟨_, v0, _, _, _, _, hv0, hslots⟩ | ⟨_, hid, hslots⟩
+      · rw [hslots, hc, getElem?_set_self' hv0] at hv
+        cases hv; cases hu
+      · rw [hslots, hc, hid] at hv
+        simp at hv
+        rw [← hv] at hu; cases hu
+    rcases hD k v (hsame hne) hu with ⟨g0, hmem⟩ | hge
+    · rcases allocLoop_mem (g := g) hmem with h1 | h1 | h1
+      · left; exact ⟨g0, by rw [hfree]; exact h1⟩
+      · right; exact h1
+      · exfalso
+        rcases hcase with ⟨_, _, _, _, _, hloop, _, _⟩ | ⟨hloop, _, _⟩
+        · rw [hloop] at h1
+          simp only [Option.some.injEq] at h1
+          exact hne (by rw [h1])
+        · rw [hloop] at h1; cases h1
+    · right; exact hge
+  obtain ⟨_, _, hcase⟩ := newStruct_cases h
+  rcases hcase with ⟨id, v0, _, _, _, _, hs, _⟩ | ⟨id, v0, last, s2, id2, _, _, _, _, _, ha, _, hs, _⟩ |
+    ⟨id, v0, last, _, hv0, _, _, _, hs, _⟩ | ⟨_, s2, id2, ha, _, hs, _⟩
+  · rw [hs]; exact hD
+  · rw [hs]; exact halloc s2 id2 ha
+  · rw [hs]
+    intro k v hv hu
+    by_cases hk : id.idx = k
+    · subst hk
+      simp only [getElem?_set_self' hv0, Option.some.injEq] at hv
+      subst hv
+      cases hu
+    · simp only [List.getElem?_set_ne hk] at hv
+      exact hD k v hv hu
+  · rw [hs]; exact halloc s2 id2 ha
+
+theorem deleteAll_deadOnFree {s s' : State} {cur : Nat} {l : List (Identity × Id)}
+    (h : deleteAll s cur l = .ok s') (hF : FreeOK s) (hN : FreeNodup s)
+    (hown : ∀ x, x ∈ l → Owns s x.2) (hnd : (pairIdxs l).Nodup) (hD : DeadOnFree s) :
+    DeadOnFree s' := by
+  have hS := deleteAll_spec h hF hN hown hnd
+  intro k v hv hu
+  by_cases hk : k ∈ pairIdxs l
+  · obtain ⟨x, hx, hxk⟩ := mem_pairIdxs.mp hk
+    obtain ⟨v0, hv0, hd0⟩ := hS.dead x hx
+    obtain ⟨v1, hv1, _, hg1⟩ := hown x hx
+    rw [hv0] at hv1; cases hv1
+    rw [hxk, hv] at hd0
+    cases hd0
+    left
+    refine ⟨x.1.ingr, ?_⟩
+    rw [hS.free]
+    apply List.mem_append_right
+    apply List.mem_map.mpr
+    refine ⟨x, hx, ?_⟩
+    have : x.2 = ⟨k, (deadValue v0).gen⟩ := by
+      cases hx2 : x.2 with
+      | mk i gn =>
+        rw [hx2] at hxk hg1
+        simp only at hxk hg1
+        simp [deadValue, hxk, hg1]
+    rw [this]
+  · rw [hS.others k hk] at hv
+    rcases hD k v hv hu with ⟨g0, hmem⟩ | hge
+    · left; exact ⟨g0, by rw [hS.free]; exact List.mem_append_left _ hmem⟩
+    · right; exact hge
+
+theorem step_deadOnFree {hash : Nat → Nat} {w w' : World} {op : Op} (hI : WInv w)
+    (hD : DeadOnFree w.st) (h : step hash w op = .ok w') : DeadOnFree w'.st := by
+  cases op with
+  | spawn => simp only [step, Except.ok.injEq] at h; subst h; exact hD
+  | «begin» q =>
+    simp only [step] at h
+    split at h
+    · simp only [Except.ok.injEq] at h; subst h; exact hD
+    · cases h
+  | new q cur dur ca g fields =>
+    simp only [step] at h
+    split at h
+    · split at h
+      · cases h
+      · rename_i out hns
+        simp only [Except.ok.injEq] at h
+        subst h
+        exact newStruct_deadOnFree hns hD
+    · cases h
+  | finish q cur =>
+    simp only [step] at h
+    split at h
+    · rename_i f hq
+      split at h
+      · cases h
+      · rename_i s2 hdel
+        simp only [Except.ok.injEq] at h
+        subst h
+        have hnd : (idxs f.idmap).Nodup := ctx_nodup hI hq
+        exact deleteAll_deadOnFree hdel hI.freeOK hI.freeNodup (by
+          intro x hx
+          obtain ⟨e, he, _, hp⟩ := mem_drain_stale.mp hx
+          rw [← hp]
+          exact ctx_owns hI hq e.id (by simp only [ctxIds, List.mem_map]; exact ⟨e, he, rfl⟩))
+          (drain_stale_nodup hnd) hD
+    · cases h
+  | discard q cur =>
+    simp only [step] at h
+    split at h
+    · rename_i a hq
+      split at h
+      · cases h
+      · rename_i s2 hdel
+        simp only [Except.ok.injEq] at h
+        subst h
+        exact deleteAll_deadOnFree hdel hI.freeOK hI.freeNodup (by
+          intro x hx
+          exact ctx_owns hI hq x.2 (by simp only [ctxIds, List.mem_map]; exact ⟨x, hx, rfl⟩))
+          (ctx_nodup hI hq) hD
+    · cases h
+  | read cur idx =>
+    simp only [step] at h
+    split at h
+    · cases h
+    · rename_i s2 hrd
+      simp only [Except.ok.injEq] at h
+      subst h
+      obtain ⟨v0, r, hv0, _, hs⟩ := readField_cases hrd
+      subst hs
+      intro k v hv hu
+      by_cases hk : idx = k
+      · subst hk
+        simp only [getElem?_set_self' hv0, Option.some.injEq] at hv
+        subst hv; cases hu
+      · simp only [List.getElem?_set_ne hk] at hv
+        exact hD k v hv hu
+  | addMemo idx payload =>
+    simp only [step] at h
+    split at h
+    · cases h
+    · rename_i s2 hrd
+      simp only [Except.ok.injEq] at h
+      subst h
+      obtain ⟨v0, r, hv0, hr0, hs⟩ := addMemo_cases hrd
+      subst hs
+      intro k v hv hu
+      by_cases hk : idx = k
+      · subst hk
+        simp only [getElem?_set_self' hv0, Option.some.injEq] at hv
+        subst hv
+        simp only at hu
+        rw [hr0] at hu; cases hu
+      · simp only [List.getElem?_set_ne hk] at hv
+        exact hD k v hv hu
+
+theorem runOps_deadOnFree {hash : Nat → Nat} {w w' : World} {ops : List Op} (hI : WInv w)
+    (hD : DeadOnFree w.st) (h : runOps hash w ops = .ok w') : DeadOnFree w'.st := by
+  induction ops generalizing w with
+  | nil => simp only [runOps, Except.ok.injEq] at h; exact h ▸ hD
+  | cons op rest ih =>
+    unfold runOps at h
+    split at h
+    · cases h
+    · rename_i w1 h1
+      exact ih (step_inv hI h1) (step_deadOnFree hI hD h1) h
+
+theorem deadOnFree_empty : DeadOnFree World.empty.st := by
+  intro k v hv; simp [World.empty, State.empty] at hv
+
+/-- what a CAUGHT `delete_entity` panic leaves behind (`updated_at.swap(None)` precedes the check):
+    the slot is write-locked for ever — every later read, update or delete of it panics — its memos
+    are NOT cleared and it is NOT on the free list (the slot is leaked). -/
+theorem c07s_delete_unwound {s : State} {id : Id} {v : Slot} (hv : s.slots[id.idx]? = some v) :
+    (deleteEntityUnwound s id).slots[id.idx]? = some { v with updatedAt := none } ∧
+    (deleteEntityUnwound s id).free = s.free ∧
+    (∀ cur g, deleteEntity (deleteEntityUnwound s id) cur g id = .error .deleteWriteLocked) ∧
+    (∀ cur, readField (deleteEntityUnwound s id) cur id.idx = .error .readWriteLocked) := by
+  have h1 : (deleteEntityUnwound s id).slots[id.idx]? = some { v with updatedAt := none } := by
+    simp only [deleteEntityUnwound, hv]
+    exact getElem?_set_self' hv
+  refine ⟨h1, by simp only [deleteEntityUnwound, hv], ?_, ?_⟩
+  · intro cur g; simp [deleteEntity, h1]
+  · intro cur; simp [readField, h1]
+
+/-! ### the stale list handed to `diff_outputs` is sorted by (ingredient, index, generation) -/
+
+theorem staleLe_total (a b : Identity × Id) : staleLe a b = false → staleLe b a = true := by
+  simp only [staleLe, Bool.or_eq_false_iff, Bool.and_eq_false_iff, Bool.or_eq_true,
+    Bool.and_eq_true, decide_eq_true_eq, decide_eq_false_iff_not]
+  omega
+
+theorem staleLe_trans (a b c : Identity × Id) :
+    staleLe a b = true → staleLe b c = true → staleLe a c = true := by
+  simp only [staleLe, Bool.or_eq_true, Bool.and_eq_true, decide_eq_true_eq]
+  omega
+
+theorem insertSorted_sorted (a : Identity × Id) (l : List (Identity × Id))
+    (h : l.Pairwise (fun x y => staleLe x y = true)) :
+    (insertSorted a l).Pairwise (fun x y => staleLe x y = true) := by
+  induction l with
+  | nil => simp [insertSorted]
+  | cons b rest ih =>
+    rw [List.pairwise_cons] at h
+    unfold insertSorted
+    cases hle : staleLe a b with
+    | true =>
+      simp only [if_true]
+      refine List.pairwise_cons.mpr ⟨?_, List.pairwise_cons.mpr h⟩
+      intro x hx
+      rcases List.mem_cons.mp hx with h1 | h1
+      · rw [h1]; exact hle
+      · exact staleLe_trans a b x hle (h.1 x h1)
+    | false =>
+      simp only [Bool.false_eq_true, if_false]
+      refine List.pairwise_cons.mpr ⟨?_, ih h.2⟩
+      intro x hx
+      rcases List.mem_cons.mp ((insertSorted_perm a rest).mem_iff.mp hx) with h1 | h1
+      · rw [h1]; exact staleLe_total a b hle
+      · exact h.1 x h1
+
+theorem sortStale_sorted (l : List (Identity × Id)) :
+    (sortStale l).Pairwise (fun x y => staleLe x y = true) := by
+  induction l with
+  | nil => simp [sortStale]
+  | cons a rest ih => unfold sortStale; exact insertSorted_sorted a _ ih
+
+theorem drain_stale_sorted (m : List Entry) :
+    (IdentityMap.drain m).2.Pairwise (fun x y => staleLe x y = true) := sortStale_sorted _
 
 end SalsaVerif.Proofs.Structs
